@@ -453,6 +453,8 @@ def values(t, rng, tier):
             out.append(("s", [rng.choice([rng.randrange(1, 0xD800), rng.randrange(0xE000, 0x10000)]) for _ in range(n)]))
         else:
             out.append(("x", bytes(rng.getrandbits(8) for _ in range(n))))
+    if t == 0x0B:
+        out += [("s", [0xFEFF, 65, 66]), ("s", [0xFFFE, 0x3042]), ("s", [65, 0xFEFF])]     # BOMs are characters
     return out
 
 
